@@ -1107,6 +1107,26 @@ def move_imports_to_toplevel(source: str) -> str:
             yield r, None, transaction
 
 
+def _outer_names(node: ast.AST) -> Collection[str]:
+    """Names used in node that are not bound by node, or are declared global or nonlocal in it."""
+    used_names = set()
+    bound_names = set()
+    outer_names = set()
+    for child in ast.walk(node):
+        if isinstance(child, ast.Name):
+            used_names.add(child.id)
+            if not isinstance(child.ctx, ast.Load):
+                bound_names.add(child.id)
+        elif isinstance(child, ast.arg):
+            bound_names.add(child.arg)
+        elif isinstance(child, (ast.FunctionDef, ast.AsyncFunctionDef)):
+            bound_names.add(child.name)
+        elif isinstance(child, (ast.Global, ast.Nonlocal)):
+            outer_names.update(child.names)
+
+    return (used_names - bound_names) | outer_names
+
+
 def remove_duplicate_functions(source: str, preserve: Collection[str]) -> str:
     """Remove duplicate function definitions.
 
@@ -1121,7 +1141,8 @@ def remove_duplicate_functions(source: str, preserve: Collection[str]) -> str:
     function_defs = collections.defaultdict(set)
 
     for node in core.filter_nodes(root.body, ast.FunctionDef):
-        function_defs[abstractions.hash_node(node, preserve)].add(node)
+        # Names that the function does not bind itself mean the same thing in every function
+        function_defs[abstractions.hash_node(node, set(preserve) | _outer_names(node))].add(node)
 
     delete = set()
     renamings = {}
